@@ -3,6 +3,7 @@ import z3
 from .reg import contract, lemma, bv32, sx, zx, byte, LemmaOb, valid_ptr
 from vc.symex import Ptr, BV, Contract
 from . import timezone as tzc
+from . import reg as _reg
 from .timezone import tz_fields, bound_to_own_zone, K_MANUAL, K_BASIC, K_EXT, K_BASIC_M, K_EXT_M
 
 TZ = 'ace_time::TimeZone'
@@ -74,6 +75,8 @@ def _pool_ri(c, P):
 def _summary(name, P):
     contract(name, extern=False, props=[], ensures=lambda c, P=P: _pool_ri(c, P), assigns=lambda c, P=P: _cache_region(c, P),
              note='ASSUMED summary of the fill pipeline (determinism and correctness of its result are checked by the bounded stand-ins of C01/C02/C08): writes only the cache arrays of the processor')
+    # the static pipeline functions have no `this`: the processor they work for is ghost state set by init()'s contract
+    _reg.REG[name].call_site_reads = ('ghost',)
 
 
 B = 'ace_time::BasicZoneProcessor'
